@@ -57,7 +57,7 @@ Definition ctx_ok (c : context) : Prop :=
 Lemma abc_scan_letters l : Forall letter l -> forall first e, abc_scan cfg l first e = length l.
 Proof.
   induction 1 as [|b l Hb Hl IH]; intros first e; [reflexivity|].
-  cbn [abc_scan length]. unfold cfg, synth_cfg; cbn [cf_alphabet cf_delims cf_initials cf_finals].
+  cbn [abc_scan length]. unfold cfg, synth_cfg, synth_cfg_with; cbn [cf_alphabet cf_delims cf_initials cf_finals].
   rewrite Hb. rewrite (letter_not_delim b Hb). cbn [mem_byte existsb negb andb orb].
   rewrite !andb_false_r. cbn [negb andb orb].
   fold cfg. now rewrite IH.
@@ -378,7 +378,7 @@ Proof.
   replace (127 <=? Z.of_N (N_of_byte b))%Z with false by (symmetry; apply Z.leb_gt; lia).
   replace (Z.of_N (N_of_byte b) =? XK_space)%Z with false by (symmetry; apply Z.eqb_neq; unfold XK_space; lia).
   cbn [orb andb]. rewrite byte_of_code.
-  unfold cfg, synth_cfg. cbn [cf_alphabet cf_delims cf_initials]. fold (synth_cfg fluid dlog). fold cfg.
+  unfold cfg, synth_cfg, synth_cfg_with. cbn [cf_alphabet cf_delims cf_initials]. fold (synth_cfg fluid dlog). fold cfg.
   unfold letter in Hb. rewrite Hb. reflexivity.
 Qed.
 
@@ -577,7 +577,7 @@ Lemma ed_find_special code :
   else if (code =? XK_Delete)%Z then Some EdDeleteChar
   else if (code =? XK_Escape)%Z then Some EdCancelComposition else None.
 Proof.
-  intros H. unfold editor_keymap, cfg, synth_cfg. cbn [cf_fluid]. clear cfg.
+  intros H. unfold editor_keymap, cfg, synth_cfg, synth_cfg_with. cbn [cf_fluid]. clear cfg.
   destruct fluid; repeat (destruct H as [<- | H]; [vm_compute; reflexivity|]); destruct H.
 Qed.
 
@@ -687,7 +687,7 @@ Proof.
   { unfold menu_view. destruct (negb (has_menu (st_ctx s))); [reflexivity|].
     destruct Hs as [-> | (g & -> & (_ & _ & _ & G3))]; [reflexivity|].
     destruct (s_menu g) as [m|]; [|reflexivity]. rewrite G3.
-    unfold cfg, synth_cfg. cbn [cf_page_size].
+    unfold cfg, synth_cfg, synth_cfg_with. cbn [cf_page_size].
     change (int_of_size 0) with 0%Z. change (Z.quot 0 5) with 0%Z.
     change (size_of_int 5) with 5%N. change (size_of_int 0) with 0%N.
     unfold create_page. change (size_wrap (5 * 0)) with 0%N. change (size_wrap (0 + 5)) with 5%N.
@@ -742,7 +742,7 @@ Proof.
   - (* a spelling letter: the speller accepts *)
     destruct k as [ch| | | | | | |]; try discriminate Elet.
     assert (Hch : letter ch).
-    { unfold ekey_ok, cfg, synth_cfg in Hk. cbn [cf_alphabet cf_initials] in Hk.
+    { unfold ekey_ok, cfg, synth_cfg, synth_cfg_with in Hk. cbn [cf_alphabet cf_initials] in Hk.
       apply andb_prop in Hk. apply Hk. }
     unfold process_key, processors. cbn [run_processors key_code_of].
     rewrite (speller_letter s ch Hch). cbv beta iota. cbn [fst snd].
@@ -861,7 +861,7 @@ Qed.
 
 Lemma init_good : good (init_state cfg) buf_empty.
 Proof.
-  unfold good, ctx_is, ctx_ok, init_state, cfg, synth_cfg, init_opts. cbn.
+  unfold good, ctx_is, ctx_ok, init_state, cfg, synth_cfg, synth_cfg_with, init_opts. cbn.
   repeat split; auto. left; reflexivity.
 Qed.
 
